@@ -110,9 +110,9 @@ int kalign_read_input(char* infile, struct msa** msa, int quiet)
         }
         //LOG_MSG("Len: %d",j);
         if(j == 0){
+                /* nothing in this source; *msa keeps what earlier sources gave */
                 DESTROY_TIMER(timer);
                 free_in_buffer(b);
-                *msa = NULL;
                 return OK;
         }
 
@@ -137,7 +137,6 @@ int kalign_read_input(char* infile, struct msa** msa, int quiet)
                 /* clean up allocated structures */
                 free_in_buffer(b);
                 DESTROY_TIMER(timer);
-                *msa = NULL;
                 return OK;
         }
         m->quiet = quiet;
